@@ -729,6 +729,34 @@ func famX1Overflow(seed uint64, emit func(candCase)) {
 	}
 }
 
+// famInfinity: the holder of the private key can choose (r, s) so that
+// [s]G + [t]P is the point at infinity (s = -t*d, r = t - s): there is no x1
+// and the pair must be rejected whatever the digest - in particular for the
+// digests e = r (mod n) that would fit "x1 = 0". Digest mode.
+func famInfinity(d *big.Int, seed uint64, emit func(candCase)) {
+	c := ref.SM2
+	pub := c.BaseMul(d)
+	for i := uint64(0); i < 2; i++ {
+		t := nonceFromSeed(gen.Mix(seed, i, 0x696e66))
+		s := modN(new(big.Int).Neg(new(big.Int).Mul(t, d)))
+		r := modN(sub(t, s))
+		if r.Sign() == 0 || s.Sign() == 0 {
+			continue
+		}
+		if !c.Add(c.BaseMul(s), c.Mul(t, pub)).Inf {
+			h.HarnessError("infinity construction does not give the point at infinity")
+		}
+		digests := [][]byte{ref.Bytes32(r), gen.Fill(gen.Mix(seed, i), 32), append(ref.Bytes32(r), 0x55)}
+		if v := add(r, bigN); v.Cmp(two256) < 0 {
+			digests = append(digests, ref.Bytes32(v))
+		}
+		for _, dg := range digests {
+			b := base{D: d, Pub: pub, Digest: dg, E: dg, R: r, S: s}
+			emit(b.cand("crafted:x1-is-infinity").withRS(r, s).expect(false))
+		}
+	}
+}
+
 // famBadPub: public keys that are not points of the curve, against a pair
 // that is valid for the curve point they resemble. Digest mode only.
 func famBadPub(seed uint64, emit func(candCase)) {
@@ -857,6 +885,8 @@ func TestC06_Crafted(t *testing.T) {
 			ds := edgeScalars(s)
 			d := ds[(i*5)%len(ds)]
 			famCrafted(ref.SM2.BaseMul(d), s, emit)
+			famInfinity(d, s, emit)
+			famInfinity(ds[(i*5+1)%len(ds)], s+3, emit)
 			famCrafted(smallXPoint(int64(s%5000)+2), s+1, emit)
 			famBadPub(s, emit)
 			famX1Overflow(s, emit)
@@ -902,7 +932,7 @@ func TestC06_SubstExhaustive(t *testing.T) {
 type randCase struct {
 	KeyKind int
 	KeySeed uint64
-	Mode    int // 0 message mode, 1 digest mode, 2 crafted digest under a foreign key, 3 crafted digest for a short r or s
+	Mode    int // 0 message mode, 1 digest mode, 2 crafted digest under a foreign key, 3 crafted digest for a short r or s, 4 pair with [s]G+[t]P = infinity
 	UIDLen  int
 	MsgLen  int
 	DigLen  int
@@ -988,6 +1018,16 @@ func (rc randCase) expand() (candCase, bool) {
 		if !ok {
 			return candCase{}, false
 		}
+	case 4:
+		// [s]G + [t]P = infinity (s = -t*d), digest fitted to "x1 = 0"; every family applies on top
+		t := nonceFromSeed(rc.Seed + 9)
+		s := modN(new(big.Int).Neg(new(big.Int).Mul(t, d)))
+		r := modN(sub(t, s))
+		if r.Sign() == 0 || s.Sign() == 0 {
+			return candCase{}, false
+		}
+		dg := ref.Bytes32(r)
+		b = base{D: d, Pub: ref.SM2.BaseMul(d), Digest: dg, E: dg, R: r, S: s}
 	default:
 		// a valid pair with a short r or s (so that n+r, n+s still fit into 32 bytes)
 		bits := []uint{8, 64, 128, 200, 224}[rc.KeySeed%5]
@@ -1081,7 +1121,7 @@ func TestC06_Random(t *testing.T) {
 		rc := randCase{
 			KeyKind: rapid.IntRange(0, 7).Draw(rt, "keyKind"),
 			KeySeed: rapid.Uint64().Draw(rt, "keySeed"),
-			Mode:    rapid.SampledFrom([]int{0, 0, 0, 1, 1, 2, 3}).Draw(rt, "mode"),
+			Mode:    rapid.SampledFrom([]int{0, 0, 0, 1, 1, 2, 3, 4}).Draw(rt, "mode"),
 			UIDLen: rapid.OneOf(rapid.SampledFrom([]int{0, -1, 1, 16, 63, 64, 65, maxUID - 1, maxUID}),
 				rapid.IntRange(0, 200), rapid.IntRange(0, maxUID)).Draw(rt, "uidLen"),
 			MsgLen: gen.LenClass(2048, 64).Draw(rt, "msgLen"),
